@@ -71,8 +71,11 @@ func (c10Listener) Accept() (net.Conn, error) {
 	select {
 	case out := <-c10.accepts:
 		c10.attempts--
-		if out != 0 {
+		if out == 1 {
 			return nil, errors.New("accept failed")
+		}
+		if out == 2 {
+			c10.shutdown() // shutdown arrives exactly while the connection is being established
 		}
 		c := &c10Conn{id: len(c10.conns)}
 		c10.conns = append(c10.conns, c)
@@ -103,8 +106,11 @@ func verifStub_DialTimeout(network, address string, timeout time.Duration) (net.
 		return nil, errors.New("dial timeout")
 	}
 	c10.attempts--
-	if out != 0 {
+	if out == 1 {
 		return nil, errors.New("dial failed")
+	}
+	if out == 2 {
+		c10.shutdown() // shutdown arrives exactly while the dial is succeeding
 	}
 	c := &c10Conn{id: len(c10.conns)}
 	c10.conns = append(c10.conns, c)
@@ -250,7 +256,7 @@ func verifHarness_C10_pool() {
 			if c10.attempts == 0 {
 				verifAssume(false) // pool is full: nobody is waiting for a connection
 			}
-			out := verifChoose("conn-outcome", 2)
+			out := verifChoose("conn-outcome", 3) // 0 established, 1 fails, 2 established while shutdown arrives
 			c10.sessionOutcome, c10.pingOutcome = 0, 0
 			if out == 0 {
 				c10.sessionOutcome = verifChoose("yamux-setup", 2)
@@ -259,6 +265,9 @@ func verifHarness_C10_pool() {
 				}
 			}
 			switch {
+			case out == 2:
+				verifAction("connection-established-while-shutdown-arrives")
+				verifReach("shutdown-during-connect")
 			case out != 0:
 				verifAction("connect-fails")
 			case c10.sessionOutcome != 0:
